@@ -101,7 +101,17 @@ CPApply(t, f, new, start, end, topmost) ==
                    IN IF raa = << >> THEN f2
                       ELSE SetPt(f2, st, Pt(SubSeq(p2.add, 1, Len(new)) \o raa \o SubSeq(p2.add, Len(new) + 1, Len(p2.add)),
                                             p2.rem \o raa))
-        f4 == WithKey(f3, en)
+        \* topmost: at every index strictly inside the range where settings are stopped and restarted (same object in
+        \* rem and add), the new settings are restarted too, directly above the restarted ones
+        Restarted(p) == {i \in DOMAIN p.add : FindRef(p.add[i], p.rem) # 0}
+        f3b == IF ~topmost THEN f3
+               ELSE [k \in DOMAIN f3 |->
+                       IF st < k /\ k < en /\ Restarted(f3[k]) # {}
+                       THEN LET p == f3[k]
+                                last == CHOOSE i \in Restarted(p) : \A j \in Restarted(p) : j <= i
+                            IN Pt(SubSeq(p.add, 1, last) \o new \o SubSeq(p.add, last + 1, Len(p.add)), p.rem \o new)
+                       ELSE f3[k]]
+        f4 == WithKey(f3b, en)
         p4 == f4[en]
     IN SetPt(f4, en, Pt(p4.add, IF topmost THEN p4.rem \o new ELSE new \o p4.rem))
 
